@@ -5,6 +5,7 @@
    JAX numerics themselves is a differential test in the check, not a theorem. *)
 From Coq Require Import List Arith Ring QArith.
 From PV Require Import C09.ConnModel C09.ListLemmas C09.ConnProofs C09.Carriers C09.FermiProofs C09.RelSpecs C09.HelperModel C09.HelperProofs.
+From PV Require Import C15.ClementsModel C15.MatProofs C15.EulerModel C09.EulerBridge.
 Import ListNotations.
 Open Scope nat_scope.
 
@@ -152,8 +153,8 @@ Variables (is_psd is_diag_nonneg : Mx -> Prop) (ch sh : Mx -> Mx).
 Hypothesis mmul_assoc : forall a b c, mmul a (mmul b c) = mmul (mmul a b) c.
 Hypothesis mmul_O_r : forall a, mmul a O = O.
 Hypothesis mmul_O_l : forall a, mmul O a = O.
-Hypothesis madd_O_r : forall a, madd a O = a.
-Hypothesis madd_O_l : forall a, madd O a = a.
+Hypothesis madd_O_r : forall a b, madd (mmul a b) O = mmul a b.
+Hypothesis madd_O_l : forall a b, madd O (mmul a b) = mmul a b.
 Hypothesis conj_O : conj O = O.
 
 (* the Euler-decomposed `linear` gate of the pure Fock simulator WITHOUT truncation (its
@@ -197,6 +198,44 @@ Print Assumptions C09_linear_gate_untruncated_connector_independent.
 Print Assumptions C09_linear_gate_untruncated_is_blocks.
 Print Assumptions C09_euler_factors_not_unique.
 
+(* Bridge to C15's glue theorem for decompositions.py:euler (C15/EulerGlue.v:euler_glue, imported,
+   not re-proved).  RelSpecs' abstract algebra is instantiated with C15's d x d list-matrices over a
+   ring with involution (its laws are proved for the instance in C09/EulerBridge.v); the contracts
+   of polar / logm / takagi on the OUTPUTS are visible premises, written per block:
+     polar_left_blocks : S = R U_orig with U_orig = diag(u, conj u) unitary;
+     logm_blocks       : R = exp [[0,-Z],[-conj Z,0]] through the even / odd parts fc, fs of exp;
+     takagi_out        : RelSpecs.is_takagi (Z = U D U^T, U unitary, D real);
+     similarity_invariant : fc, fs commute with the unitary similarity by U.
+   Then the three values returned by euler() satisfy is_euler ... *)
+Theorem C09_euler_model_is_euler :
+  forall (A : Type) (Ops : ROps A) (L : RLaws Ops) (d : nat) (fc fs : mat A -> mat A)
+         (G : mat A * mat A) Rp Ra Z U D u,
+  wf d U -> wf d D -> wf d u -> wf d (chf d fc D) -> wf d (fs (mmul d D D)) ->
+  polar_left_blocks d G Rp Ra u -> logm_blocks d fc fs Rp Ra Z -> takagi_out d Z D U ->
+  similarity_invariant d fc fs U ->
+  is_euler (mat A) (mmul d) (madj d) (mconj d) (mid d) (chf d fc) (shf d fs) G (euler_model d U D u).
+Proof. exact @euler_model_is_euler. Qed.
+Print Assumptions C09_euler_model_is_euler.
+
+(* ... hence for any two connectors whose polar / logm / takagi outputs satisfy these contracts
+   (the relations the check evaluates numerically per connector), the untruncated linear gate
+   acts identically, whatever factors each of them returns *)
+Theorem C09_linear_gate_independent_of_shims :
+  forall (A : Type) (Ops : ROps A) (L : RLaws Ops) (d : nat) (fc fs : mat A -> mat A)
+         (G : mat A * mat A) Rp1 Ra1 Z1 U1 D1 u1 Rp2 Ra2 Z2 U2 D2 u2,
+  wf d U1 -> wf d D1 -> wf d u1 -> wf d (chf d fc D1) -> wf d (fs (mmul d D1 D1)) ->
+  wf d U2 -> wf d D2 -> wf d u2 -> wf d (chf d fc D2) -> wf d (fs (mmul d D2 D2)) ->
+  polar_left_blocks d G Rp1 Ra1 u1 -> logm_blocks d fc fs Rp1 Ra1 Z1 -> takagi_out d Z1 D1 U1 ->
+  similarity_invariant d fc fs U1 ->
+  polar_left_blocks d G Rp2 Ra2 u2 -> logm_blocks d fc fs Rp2 Ra2 Z2 -> takagi_out d Z2 D2 U2 ->
+  similarity_invariant d fc fs U2 ->
+  linear_action (mat A) (mmul d) (msum d) (mconj d) (mzero d) (chf d fc) (shf d fs)
+                (fun _ => euler_model d U1 D1 u1) G
+  = linear_action (mat A) (mmul d) (msum d) (mconj d) (mzero d) (chf d fc) (shf d fs)
+                (fun _ => euler_model d U2 D2 u2) G.
+Proof. exact @linear_gate_independent_of_shims. Qed.
+Print Assumptions C09_linear_gate_independent_of_shims.
+
 (* the laws assumed of the matrix algebra are satisfiable (1 x 1 integer matrices), and the
    untruncated action of factors (2, 3, 5) with ch = sh = identity is the expected pair *)
 Example C09_example_relational_instance :
@@ -223,3 +262,17 @@ Example C09_example_reps_at_Qi :
             (generic_reps Qi qi0 qi1 qi_add qi_mul qi_div U [h]) = true
   /\ qilll_eqb (numba_reps Qi qi0 qi1 qi_add qi_mul qi_div U [h]) [[[qi1]]; U; [[qi0; qi0]; [qi0; qi0]]] = false.
 Proof. split; vm_compute; reflexivity. Qed.
+
+(* the premises of the bridge are jointly satisfiable (d = 1 over Z with the trivial involution,
+   fc = const 1, fs = const 0: P = u = U = D = 1, A = Z = 0) *)
+Definition C09_ZOps : ROps Z :=
+  {| r0 := 0%Z; r1 := 1%Z; radd := Z.add; rmul := Z.mul; rsub := Z.sub; ropp := Z.opp; rconj := fun x => x |}.
+Lemma C09_ZLaws : RLaws C09_ZOps.
+Proof. constructor; simpl; intros; auto. exact InitialRing.Zth. Qed.
+Example C09_example_bridge_premises :
+  let one := [[1%Z]] in let zer := [[0%Z]] in
+  polar_left_blocks (Ops := C09_ZOps) 1 (one, zer) one zer one /\
+  logm_blocks (Ops := C09_ZOps) 1 (fun _ => one) (fun _ => zer) one zer zer /\
+  takagi_out (Ops := C09_ZOps) 1 zer zer one /\
+  similarity_invariant (Ops := C09_ZOps) 1 (fun _ => one) (fun _ => zer) one.
+Proof. repeat split. Qed.
